@@ -394,12 +394,17 @@ func (opts *Options) flagSet() {
 func (opts *Options) loadCfg() {
 	var file = path.Join(opts.VFlowConfigPath, "vflow.conf")
 
-	for i, flag := range os.Args {
-		if flag == "-config" {
+	// every spelling package flag accepts: -config FILE, --config FILE, -config=FILE, --config=FILE
+	for i, arg := range os.Args {
+		if arg == "-config" || arg == "--config" {
 			file = os.Args[i+1]
-			opts.VFlowConfigPath, _ = path.Split(file)
-			break
+		} else if strings.HasPrefix(arg, "-config=") || strings.HasPrefix(arg, "--config=") {
+			file = arg[strings.Index(arg, "=")+1:]
+		} else {
+			continue
 		}
+		opts.VFlowConfigPath, _ = path.Split(file)
+		break
 	}
 
 	b, err := ioutil.ReadFile(file)
